@@ -3,10 +3,10 @@
 use std::sync::Arc;
 
 use super::*;
-use crate::array::{ArrayImpl, DataChunk};
+use crate::array::{Array, ArrayImpl, DataChunk};
 use crate::catalog::{ColumnId, TableRefId};
 use crate::storage::{Storage, Table, Transaction};
-use crate::types::{ColumnIndex, ConvertError, DataValue};
+use crate::types::{ColumnIndex, ConvertError, DataType, DataValue};
 
 /// The executor of `insert` statement.
 pub struct InsertExecutor<S: Storage> {
@@ -51,6 +51,24 @@ impl<S: Storage> InsertExecutor<S> {
                     continue;
                 };
                 let src = source.array_at(index);
+                // a DECIMAL(p, s) column holds at most `s` fractional and `p - s` integral digits
+                if let (DataType::Decimal(Some(p), Some(s)), ArrayImpl::Decimal(a)) =
+                    (col.data_type(), array)
+                {
+                    for v in a.iter().flatten() {
+                        let v = v.normalize();
+                        let int_digits = v.trunc().mantissa().unsigned_abs().to_string().len();
+                        let int_digits = if v.trunc().is_zero() { 0 } else { int_digits };
+                        if v.scale() > s as u32 || int_digits > (p as usize).saturating_sub(s as usize)
+                        {
+                            return Err(ConvertError::Cast(
+                                v.to_string(),
+                                "the DECIMAL(p, s) of the column",
+                            )
+                            .into());
+                        }
+                    }
+                }
                 if matches!(src, ArrayImpl::Decimal(_) | ArrayImpl::Float64(_))
                     && matches!(
                         array,
